@@ -799,6 +799,11 @@ ${_ ('space-before-parenthesis')}
 ${x |
    f(_('filter-list-after-pipe-newline'))}
 <%namespace name="inl2" file="${_('decoy-not-python-bearing') and 'x.html'}"/>
+<%block name="argblock" args="
+
+    heading=_('block-args-value-starting-on-a-later-line'),
+    sub=_('block-args-second-line')">
+</%block>
 """
 
 
